@@ -94,14 +94,31 @@ mod proofs {
     };
     assert!(had_old, "re-parse must be incremental (old tree passed)");
     let e = edit.unwrap();
-    assert!(e.start_byte as usize == pos);
-    assert!(e.old_end_byte as usize == pos + del);
-    assert!(e.new_end_byte as usize == pos + ilen);
-    let p = point_of(&buf[..len], pos);
+    // tree-sitter's contract for an InputEdit (start, old_end, new_end): the text before
+    // `start` and the text after `old_end` (old) / `new_end` (new) is unchanged.  The exact
+    // description (pos, pos+del, pos+ilen) satisfies it, and so does any correct narrowing
+    // to the bytes that really differ -- an implementation that trims common prefixes /
+    // suffixes is not a violation.
+    let (es, eo, en) = (e.start_byte as usize, e.old_end_byte as usize, e.new_end_byte as usize);
+    let nlen = new.len();
+    assert!(es <= eo && eo <= len, "InputEdit: start <= old_end <= old length");
+    assert!(es <= en && en <= nlen, "InputEdit: start <= new_end <= new length");
+    assert!(len - eo == nlen - en, "InputEdit: the unchanged tail has the same length in both texts");
+    let mut i = 0;
+    while i < 6 {
+      if i < es {
+        assert!(buf[i] == new[i], "InputEdit: text before start_byte is unchanged");
+      }
+      if i >= eo && i < len {
+        assert!(buf[i] == new[i - eo + en], "InputEdit: text after old_end_byte is the text after new_end_byte");
+      }
+      i += 1;
+    }
+    let p = point_of(&buf[..len], es);
     assert!(e.start_position == Point::new(p.0, p.1));
-    let p = point_of(&buf[..len], pos + del);
+    let p = point_of(&buf[..len], eo);
     assert!(e.old_end_position == Point::new(p.0, p.1));
-    let p = point_of(new, pos + ilen);
+    let p = point_of(new, en);
     assert!(e.new_end_position == Point::new(p.0, p.1));
     if pos == len / 2 && del == len - pos && ilen == 2 {
       if !multibyte {
